@@ -1,5 +1,6 @@
 (* The third-party crates the model represents BY HAND (modelled, not verified) and the versions it was written
-   and compared against: the versions pinned in /repo/Cargo.lock and the requirement lines of /repo/Cargo.toml.
+   and compared against: the versions pinned in /repo/Cargo.lock (when the tree has one) and in the lock file of the
+   correspondence harness, and the requirement lines of /repo/Cargo.toml.
    The translator regenerates both lists on every run; the obligation (coq/Obligations/ObDeps.v) requires that
    the pins are still these - a dependency bump makes every theorem about the modelled behaviour stale. *)
 From Coq Require Import List String Bool.
@@ -43,6 +44,13 @@ Fixpoint pairs_eqb (a b : list (string * string)) : bool :=
   | _, _ => false
   end.
 
-Definition deps_hold (lock deps : list (string * string)) : bool :=
-  forallb (fun p => str_list_eqb (versions_of (fst p) lock) [snd p]) spec_lock_versions
+Definition lock_pins (lock : list (string * string)) : bool :=
+  forallb (fun p => str_list_eqb (versions_of (fst p) lock) [snd p]) spec_lock_versions.
+
+(* [hlock]: the lock file the correspondence harness is built with (always present: /verif/harness/Cargo.lock);
+   [lock]: /repo/Cargo.lock, which upstream git-ignores - a tree without one pins nothing itself, and the pins that
+   then matter are the harness's, which is what the differential run links *)
+Definition deps_hold (repo_has_lock : bool) (lock hlock deps : list (string * string)) : bool :=
+  lock_pins hlock
+  && (if repo_has_lock then lock_pins lock else true)
   && pairs_eqb deps spec_cargo_deps.
